@@ -8,7 +8,8 @@ from harness.drivers import dispatch_oracle as O
 
 ID = "C19"
 PROP_FILE = "Props/C19.v"
-THEOREMS = ["C19_delivery_policy", "C19_calls_follow_policy", "C19_ignored_exceptions_change_nothing", "C19_a_refuted"]
+THEOREMS = ["C19_delivery_policy", "C19_subscription_order", "C19_calls_follow_policy",
+            "C19_ignored_exceptions_change_nothing", "C19_a_refuted"]
 COQ_IMPORTS = "From BV Require Import Engine.Dispatcher."
 PARALLEL = False
 MODELLED = (
@@ -33,7 +34,7 @@ def cases(rng, tier):
     out = []
     if tier == "quick":
         out += list(G.enumerate_policy(G.RAISE_SMALL, [(0, 1, 2), (2, 0, 1)]))
-        nrand, nshare = 300, 100
+        nrand, nshare = 250, 80
     else:
         out += list(G.enumerate_policy(G.RAISE_FULL, list(itertools.permutations(range(3)))))
         nrand, nshare = 6000, 3000
